@@ -39,16 +39,16 @@ func init() {
 		ID:    "C11",
 		Title: "The encrypting store leaks no plaintext, detects tampering, and is recoverable",
 		Explanation: "Decided (structural necessary conditions, package pkg/blobserver/encrypt): " +
-			"HOW SITES ARE FOUND (all rules) — anchors are resolved by role, never by the name of an internal helper: Fetch is the storage type's blob.Fetcher method; the encrypt/decrypt helper is found by walking up from the package's single age.Encrypt/age.Decrypt call through only-callers and taking the outermost of the unbroken run of functions that have both the ciphertext and the plaintext buffer as parameters; the compaction function is the function whose effective body holds a removal from a wrapped store and an upload to the same store; a constructor is a function that returns a storage it (or a helper) allocated and is not merely a helper of another package function; the scan function is the function the constructor calls that (transitively) enumerates a wrapped store with a callback; the process function is the innermost function called from the scan function's effective body whose own effective body both calls the decrypt helper and writes the meta index. A site 'in function F' is looked for in F's EFFECTIVE BODY: F plus, transitively (depth 4), the package functions, methods and function literals F calls statically (go/defer/callback links are followed for finding sites but never count for ordering); a parameter of a helper stands for the caller's argument, the result of a helper call for what the helper returns on its success returns. Ordering facts are carried across calls: a call of helper H counts as 'P happened' at a site if the call precedes the site and every exit of H that is compatible with what is known about H's results at the site (error known nil; a boolean result known true/false; H returning the tested boolean itself) has P behind it, recursively; a success return that just forwards the outcome of a helper call (tail call) is judged at the helper's own success exits; 'after a failed X' follows the branches that test X's error on the failure side only, and continues in the caller of a helper only through exits that report the failure (non-nil error or constant false) which the caller tests. " +
-			"X-taint — explicit information flow, package-wide and flow-insensitive: no value derived from the plaintext handed in through the storage API (the ReceiveBlob reader, plaintext blobrefs of ReceiveBlob/Fetch/StatBlobs/RemoveBlobs/EnumerateBlobs), from keys of the meta index (plaintext refs) or from the output of age.Decrypt reaches any argument of any call that is given one of the wrapped stores (a method call on storage.blobs/storage.meta or a helper such as blobserver.ReceiveNoHash/EnumerateAll taking one); the only declassifier is the writer returned by age.Encrypt; every reader/byte-slice handed to a wrapped store, and the blobref it is stored under, derive from a buffer age.Encrypt wrote into, and that blobref is computed (blob.RefFromBytes, possibly inside a package helper that is handed the buffer; through forwarding helpers that take ref and bytes, at their callers) from the very buffer that is uploaded; the value half of every meta-index row (size/encrypted-ref, later used as the name fetched from the wrapped store) does not derive from API plaintext; every age.Encrypt/age.Decrypt call is keyed from the one identity field of the storage struct. " +
+			"HOW SITES ARE FOUND (all rules) — anchors are resolved by role, never by the name of an internal helper: Fetch is the storage type's blob.Fetcher method; the encrypt/decrypt helper is found by walking up from the package's single age.Encrypt/age.Decrypt call through only-callers and taking the outermost of the unbroken run of functions that have both the ciphertext and the plaintext buffer as parameters; the compaction function is the function whose effective body holds a removal from a wrapped store and an upload (not one running in a goroutine it starts) to the same store and which itself builds what it uploads - while the uploaded buffer or the plaintext encrypted into it is a parameter (the second half of a split function), its callers are taken instead; a constructor is a function that returns a storage it (or a helper) allocated and is not merely a helper of another package function; the scan function is the function the constructor calls that (transitively) enumerates a wrapped store with a callback; the process function is the innermost function (method, function or function literal bound to a local) called from the scan function's effective body whose own effective body both calls the decrypt helper and writes the meta index. A site 'in function F' is looked for in F's EFFECTIVE BODY: F plus, transitively (depth 4), the package functions, methods and function literals F calls statically (go/defer/callback links are followed for finding sites but never count for ordering); a parameter of a helper stands for the caller's argument, the result of a helper call for what the helper returns on its success returns. Ordering facts are carried across calls: a call of helper H counts as 'P happened' at a site if the call precedes the site and every exit of H that is compatible with what is known about H's results at the site (error known nil; a boolean result known true/false; H returning the tested boolean itself) has P behind it, recursively; a success return that just forwards the outcome of a helper call (tail call) is judged at the helper's own success exits; 'after a failed X' follows the branches that test X's error on the failure side only, and continues in the caller of a helper only through exits that report the failure (non-nil error or constant false) which the caller tests. " +
+			"X-taint — explicit information flow, package-wide and flow-insensitive: no value derived from the plaintext handed in through the storage API (the ReceiveBlob reader, plaintext blobrefs of ReceiveBlob/Fetch/StatBlobs/RemoveBlobs/EnumerateBlobs), from keys of the meta index (plaintext refs) or from the output of age.Decrypt reaches any argument of any call that is given one of the wrapped stores (a method call on storage.blobs/storage.meta or a helper such as blobserver.ReceiveNoHash/EnumerateAll taking one); the only declassifier is the writer returned by age.Encrypt; every reader/byte-slice handed to a wrapped store, and the blobref it is stored under, derive from a buffer age.Encrypt wrote into, and that blobref is computed (blob.RefFromBytes, possibly inside a package helper that is handed the buffer; through forwarding helpers that take ref and bytes, at their callers) from the very buffer that is uploaded (buffers are identified by their allocation, the call that returned them or the bytes.NewBuffer/NewBufferString call that made them from nothing, seen through Bytes/NewReader-style views); the value half of every meta-index row (size/encrypted-ref, later used as the name fetched from the wrapped store) does not derive from API plaintext; every age.Encrypt/age.Decrypt call is keyed from the one identity field of the storage struct. " +
 			"X-fetch — every success return of Fetch (or, for a tail call, of the helper whose outcome Fetch returns) has behind it HashMatches()==true of the ref that was fetched from the wrapped store (the read may sit in a helper) against a hash fed (before the comparison) from the reader the wrapped store returned, and a successful call of the decrypt helper on a buffer fed by that same copy; the returned reader is the decrypt output and the returned size derives from the same index look-up (keyed from the requested ref) as the fetched ref and from no wrapped-store call; the decrypt helper returns nil only after the version byte compared equal to the constant the encrypt side writes (the comparison may sit in a helper of the decrypt helper or, when the decrypt helper was split off below it, at every call site of the decrypt helper; likewise the write of the constant on the encrypt side), age.Decrypt succeeded and the copy of its output succeeded; the encrypt helper returns nil only after the copy into the age writer and its Close succeeded. " +
-			"X-compact — seen from the compaction function, the removal of the small meta blobs has behind it the success of the upload of the packed meta blob to the same store, which has behind it a successful call of the encrypt helper into the uploaded buffer, and the removal cannot execute after a failed index look-up of a row that goes into the packed plaintext (look-up, upload, encryption and removal may each sit in helpers; a helper containing the look-up must report the failure to its caller); what is removed is one parameter of the compaction function and the packed plaintext is fed from exactly one other ref-list parameter, and at every call site of the compaction function those two arguments are lock-step accumulators (per record one append of its row list and one append of its own ref, from the same record, in the same block - also inside a helper that takes and returns both lists; reset together; merged by phis edge by edge), so the deleted meta blobs are exactly the records whose rows were handed in for packing; the restart path exists: every constructor returns a store only after the scan function succeeded on it; the callback of the enumeration of the meta store (its effective body, goroutines and helpers included) fetches every enumerated ref from that store; the bytes handed to the process function flow from that fetch and every path after a failed process call ends the scan function with a non-nil error; the process function succeeds only after a successful call of the decrypt helper and after the first decrypted line compared equal to a constant header, writes (in a loop) index rows computed from the decrypted text, and every path after a failed index write ends it with a non-nil error; the header constant equals a prefix of a constant written into the plaintext of every encrypt-helper call whose ciphertext is uploaded to the meta store. " +
+			"X-compact — seen from the compaction function, the removal of the small meta blobs has behind it the success of the upload of the packed meta blob to the same store, which has behind it a successful call of the encrypt helper into the uploaded buffer, and the removal cannot execute after a failed index look-up of a row that goes into the packed plaintext (look-up, upload, encryption and removal may each sit in helpers; a helper containing the look-up must report the failure to its caller); what is removed is one parameter of the compaction function and the packed plaintext is fed from exactly one other ref-list parameter, and at every call site of the compaction function those two arguments are lock-step accumulators (per record one append of its row list and one append of its own ref, from the same record, in the same block - also inside a helper that takes and returns both lists; reset together; merged by phis edge by edge; a call site that merely forwards two parameters of its own function - a wrapper around the go statement - is judged at every caller of that function), so the deleted meta blobs are exactly the records whose rows were handed in for packing; the restart path exists: every constructor returns a store only after the scan function succeeded on it; the callback of the enumeration of the meta store (its effective body, goroutines and helpers included) fetches every enumerated ref from that store; the bytes handed to the process function flow from that fetch and every path after a failed process call ends the scan function with a non-nil error; the process function succeeds only after a successful call of the decrypt helper and after the first decrypted line compared equal to a constant header, writes (in a loop) index rows computed from the decrypted text, and every path after a failed index write ends it with a non-nil error; the header constant equals a prefix of a constant written into the plaintext of every encrypt-helper call whose ciphertext is uploaded to the meta store. " +
 			"X-index — the recoverability invariant 'the local index never knows more than the meta store durably records' (which is also what makes the duplicate short-cut at the top of ReceiveBlob and stat/enumerate sound): who-may-write enumeration of every sorted.KeyValue.Set in the package (the index handle is shown never to leave the package other than as the receiver of KeyValue methods); each write must be either REPLAYED — the row is computed only (backward slice, all leaves) from the plaintext buffer of a decrypt-helper call (in the writer's effective body) whose ciphertext is only a parameter that every caller in the package feeds from a reader the meta store returned for a fetch (a caller that does not is judged as a writer itself) — or DURABLE-FIRST — the write has behind it the success of an upload into the meta store (the store the start-up scan enumerates; the upload may sit in helpers, which must report its failure) whose content is the ciphertext of an encrypt-helper call into whose plaintext every blob.Ref the row is computed from flows, and that meta upload has behind it the success of the upload, into the blobs store (the store Fetch reads), of the ciphertext stored under the encrypted ref the row's value is computed from (both uploads may sit in one helper). A write inside a helper or function literal is judged at every call site (bounded depth 3, row translated through the parameters); a deferred write at every run-defers point it reaches, a write started with go at the go statement; a write in a callback or an API method that is not covered where it stands is a violation. " +
 			"NOT decided: implicit flows (control dependence, timing, sizes: integer, float and boolean values other than bytes are treated as carrying no plaintext, and the size half of a row is not compared between index and meta blob), confidentiality/authenticity of age itself, what external helpers do with their arguments beyond 'results and mutable arguments depend on all arguments', which field of a decrypted meta line ends up as the encrypted ref (the index is trusted to return what was stored), that tampering is detected for any concrete byte flip, that every metaBlob record pairs a meta blob's ref with exactly the rows that blob holds (construction sites of the records are not checked, nor that the packer writes every element of its row list), index Delete/Wipe and batch writes (batch operations are reported undecided by X-taint's flow model), rows left in a persistent index by an earlier process (a crash of an older, differently ordered version; meta blobs removed behind the store's back), recoverability outcomes for any concrete history. Shapes the analysis does not follow and reports instead of passing: helpers nested deeper than 4, recursive helpers, a helper that reports failure other than by a non-nil error or a constant false (e.g. through a field or a phi of booleans), a failure parked in a variable and tested after a loop (paths are not correlated), a scan function that decrypts the meta blobs itself instead of calling a per-blob function (undecided), more than one age.Encrypt/age.Decrypt call site (undecided).",
 		RuleDocs: map[string]string{
 			"X-taint":   "information-flow graph over package encrypt: every data argument of every call that receives storage.blobs/storage.meta (sinks), every value written to the meta index, every age.Encrypt/Decrypt key: no flow from API plaintext / index keys / decrypt output; uploaded bytes and their refs derive from an age.Encrypt target buffer, the ref (followed into helpers, and through forwarding helpers to their callers) from the uploaded buffer",
 			"X-fetch":   "ordering facts over the effective bodies of the Fetch method, the decrypt helper and the encrypt helper (helpers followed, facts carried across calls, tail calls judged at the helper's success exits): success returns have the ciphertext hash comparison over the bytes read and authenticated decryption behind them; size and reader provenance; version byte agreement",
-			"X-compact": "ordering facts over the effective body of the compaction function (upload success before RemoveBlobs; nothing after a failed index look-up reaches the removal), removed list and packed rows are two parameters built in lock-step from the same records at every call site, restart path from every constructor through the scan function and the process function to index.Set (all found by role, helpers/goroutines/methods followed), header-constant agreement between the meta writers and the parser",
+			"X-compact": "ordering facts over the effective body of the compaction function (upload success before RemoveBlobs; nothing after a failed index look-up reaches the removal), the compaction function is lifted to the callers while its plaintext/upload buffer is handed in, removed list and packed rows are two parameters built in lock-step from the same records at every call site (forwarding wrappers judged at their callers), restart path from every constructor through the scan function and the process function to index.Set (all found by role, helpers/goroutines/methods followed), header-constant agreement between the meta writers and the parser",
 			"X-index":   "who-may-write over every sorted.KeyValue.Set in package encrypt: each index row is either replayed only from decrypted bytes that every caller fetched from the meta store, or written after the success of the meta-store upload of ciphertext computed from the row's refs, itself after the success of the blobs-store upload of the ciphertext the row names; uploads and decryption found in effective bodies, helpers/literals holding the write judged at their call sites, deferred writes at every run-defers point; the index handle does not escape",
 		},
 		Run:       runC11,
@@ -1161,7 +1161,13 @@ func c11BufferRoots(v ssa.Value) map[ssa.Value]bool {
 				{"bytes", "Buffer", "Bytes"}, {"bytes", "Buffer", "String"}, {"io", "", "LimitReader"},
 			} {
 				if cs.IsStatic(w[0], w[1], w[2]) {
+					before := len(roots)
 					walk(x.Call.Args[0], depth+1)
+					// a buffer constructed over nothing identifiable (bytes.NewBuffer(nil),
+					// bytes.NewBufferString("")) is itself the buffer object that is later written into
+					if len(roots) == before && w[1] == "" && (w[2] == "NewBuffer" || w[2] == "NewBufferString") {
+						roots[v] = true
+					}
 					return
 				}
 			}
@@ -2918,15 +2924,66 @@ func c11RuleCompact(p *Program, r *Reporter, g *c11Flow) {
 				continue
 			}
 			nRemove++
-			hasUpload := func(root *ssa.Function) bool {
+			hasUploadIn := func(root *ssa.Function, syncOnly bool) bool {
 				for _, e := range g.effCalls(root, stop, false) {
-					if e.Value() != nil && g.isSink(e.CallSite) && g.contentArg(e.CallSite) != nil && c11StoreOverlap(g.storeOf(e), rm.store) {
+					if e.Value() != nil && (!syncOnly || e.chain.sync()) && g.isSink(e.CallSite) && g.contentArg(e.CallSite) != nil && c11StoreOverlap(g.storeOf(e), rm.store) {
 						return true
 					}
 				}
 				return false
 			}
-			for _, rt := range g.rootsOf(fn, hasUpload) {
+			// an upload that runs in a goroutine started from the function (the packer started by
+			// recording the new meta blob) can never be what the removal waits for
+			hasUpload := func(root *ssa.Function) bool { return hasUploadIn(root, false) }
+			hasSyncUpload := func(root *ssa.Function) bool { return hasUploadIn(root, true) }
+			// the compaction function also builds what it uploads: while the uploaded buffer or the
+			// plaintext that is encrypted into it is handed in by the caller (the function was split
+			// and this is its second half), the caller is the compaction function
+			isParamOf := func(v ssa.Value, chain c11Chain, root *ssa.Function) bool {
+				for rv := range c11BufferRoots(v) {
+					cv, _ := g.canon(rv, chain, false)
+					if prm, ok := cv.(*ssa.Parameter); ok && prm.Parent() == root {
+						return true
+					}
+				}
+				return false
+			}
+			complete := func(root *ssa.Function) bool {
+				body := g.effCalls(root, stop, false)
+				found := false
+				for _, u := range body {
+					if u.Value() == nil || !u.chain.sync() || !g.isSink(u.CallSite) || g.contentArg(u.CallSite) == nil || !c11StoreOverlap(g.storeOf(u), rm.store) {
+						continue
+					}
+					found = true
+					if isParamOf(g.contentArg(u.CallSite), u.chain, root) {
+						return false
+					}
+					for _, c := range body {
+						if c.Callee() != encFn || c.Value() == nil {
+							continue
+						}
+						feeds := false
+						for _, a := range u.Args() {
+							if g.wrappedStore(g.node(a)) == "" && g.cflows(c.Value().Call.Args[ro.encCipherIdx], c.chain, a, u.chain, c11FwdKinds) {
+								feeds = true
+							}
+						}
+						if feeds && isParamOf(c.Value().Call.Args[ro.encPlainIdx], c.chain, root) {
+							return false
+						}
+					}
+				}
+				return found
+			}
+			roots := g.rootsOf(fn, complete)
+			if len(roots) == 0 || !roots[0].found {
+				roots = g.rootsOf(fn, hasSyncUpload)
+			}
+			if len(roots) == 0 || !roots[0].found {
+				roots = g.rootsOf(fn, hasUpload)
+			}
+			for _, rt := range roots {
 				c11CompactAt(p, r, g, ro, rt, rm, removeName)
 			}
 		}
@@ -3093,7 +3150,8 @@ func c11RuleCompact(p *Program, r *Reporter, g *c11Flow) {
 	for i := range scanBody {
 		c := scanBody[i]
 		callee := c.Callee()
-		if !g.followable(callee) || callee.Parent() != nil || callee == decFn || callee == encFn || c.Value() == nil || !decrypts(callee) {
+		// (a function literal bound to a local and called per meta blob plays the role as well as a method)
+		if !g.followable(callee) || callee == decFn || callee == encFn || c.Value() == nil || !decrypts(callee) {
 			continue
 		}
 		if procCall == nil || len(c.chain) > len(procCall.chain) {
@@ -4404,11 +4462,28 @@ func (g *c11Flow) lockStep(a, b ssa.Value, ctx c11Chain, assumed map[[2]ssa.Valu
 	}
 	// both are parameters of the helper entered last: the pair of arguments
 	if qa, ok := a.(*ssa.Parameter); ok {
-		if qb, ok := b.(*ssa.Parameter); ok && len(ctx) > 0 {
-			l := ctx[len(ctx)-1]
+		if qb, ok := b.(*ssa.Parameter); ok && qa.Parent() == qb.Parent() {
 			ia, ib := c11ParamIndex(qa), c11ParamIndex(qb)
-			if l.to == qa.Parent() && l.to == qb.Parent() && ia >= 0 && ib >= 0 && ia < len(l.Args()) && ib < len(l.Args()) {
-				return g.lockStep(l.Args()[ia], l.Args()[ib], ctx[:len(ctx)-1], assumed, depth+1)
+			if len(ctx) > 0 {
+				l := ctx[len(ctx)-1]
+				if l.to == qa.Parent() && ia >= 0 && ib >= 0 && ia < len(l.Args()) && ib < len(l.Args()) {
+					return g.lockStep(l.Args()[ia], l.Args()[ib], ctx[:len(ctx)-1], assumed, depth+1)
+				}
+			} else if ia >= 0 && ib >= 0 {
+				// no helper was entered: the call site sits in a function that merely forwards two of
+				// its own parameters (a wrapper around the go statement, the second half of a split
+				// function): the pair is built by the callers of that function - all of them
+				sites, closed := g.closedCallers(qa.Parent())
+				if !closed || len(sites) == 0 {
+					return false, "?the two lists are parameters of " + shortFn(qa.Parent()) + ", which has no call site in the package or can be called from elsewhere"
+				}
+				assumed[key] = true
+				for _, cs := range sites {
+					if ok, why := g.lockStep(cs.Args()[ia], cs.Args()[ib], nil, assumed, depth+1); !ok {
+						return false, why
+					}
+				}
+				return true, ""
 			}
 		}
 	}
